@@ -3,6 +3,7 @@ package main
 import (
 	"context"
 	"fmt"
+	"math"
 	"runtime"
 	"sort"
 	"strings"
@@ -86,19 +87,21 @@ type recProvider struct {
 	log     *evlog
 	slow    time.Duration // every Meter() call of the SDK takes this much longer (widens the installation walk)
 	slowReg time.Duration // every RegisterCallback of the SDK takes this much longer (widens the hand-over)
+	fwd     *fwdLog       // forwarded float64 calls, bit for bit
 }
 
 func (p *recProvider) Meter(name string, opts ...metric.MeterOption) metric.Meter {
 	if p.slow > 0 {
 		time.Sleep(p.slow)
 	}
-	return &recMeter{Meter: p.MeterProvider.Meter(name, opts...), log: p.log, slowReg: p.slowReg}
+	return &recMeter{Meter: p.MeterProvider.Meter(name, opts...), log: p.log, slowReg: p.slowReg, fwd: p.fwd}
 }
 
 type recMeter struct {
 	metric.Meter
 	log     *evlog
 	slowReg time.Duration
+	fwd     *fwdLog
 }
 
 func (m *recMeter) RegisterCallback(f metric.Callback, insts ...metric.Observable) (metric.Registration, error) {
@@ -252,6 +255,20 @@ func recVal(class, n int) int {
 func (x *inst) record(ctx context.Context, n int) {
 	a := metric.WithAttributes(attribute.Int("n", n))
 	v := recVal(classOf(x.kind), n)
+	if bits, ok := specialBits(x.kind, n); ok {
+		f := math.Float64frombits(bits)
+		switch h := x.h.(type) {
+		case metric.Float64Counter:
+			h.Add(ctx, f, a)
+		case metric.Float64UpDownCounter:
+			h.Add(ctx, f, a)
+		case metric.Float64Histogram:
+			h.Record(ctx, f, a)
+		case metric.Float64Gauge:
+			h.Record(ctx, f, a)
+		}
+		return
+	}
 	switch h := x.h.(type) {
 	case metric.Int64Counter:
 		h.Add(ctx, int64(v), a)
@@ -322,6 +339,7 @@ type world struct {
 	regs     map[int]*regH
 	tracers  map[int]trace.Tracer
 	mscope   map[int]scopeID
+	fwd      *fwdLog
 	errhDone bool
 	tscope   map[int]scopeID
 	notes    []string
@@ -351,7 +369,8 @@ func newWorld(readers int, concurrent bool, slowReg time.Duration) *world {
 	}
 	w.concurrentCollect = concurrent
 	w.sdk = sdkmetric.NewMeterProvider(opts...)
-	w.wrapped = &recProvider{MeterProvider: w.sdk, log: w.log, slowReg: slowReg}
+	w.fwd = &fwdLog{}
+	w.wrapped = &recProvider{MeterProvider: w.sdk, log: w.log, slowReg: slowReg, fwd: w.fwd}
 	w.rec = tracetest.NewSpanRecorder()
 	w.tsdk = sdktrace.NewTracerProvider(sdktrace.WithSpanProcessor(w.rec))
 	return w
@@ -680,8 +699,14 @@ func (w *world) opInstallTV(variant int) {
 // opProp installs a propagator and checks, through the handle obtained before, that the
 // placeholder injects / extracts / lists exactly what the installed one does (no model:
 // observed directly).
-func (w *world) opProp() bool {
-	installed := propagation.NewCompositeTextMapPropagator(propagation.TraceContext{}, propagation.Baggage{})
+func (w *world) opProp() bool { return w.opPropV(0) }
+
+// variant 1: the installed propagator (and the carrier it writes to) consults the placeholder again
+func (w *world) opPropV(variant int) bool {
+	var installed propagation.TextMapPropagator = propagation.NewCompositeTextMapPropagator(propagation.TraceContext{}, propagation.Baggage{})
+	if variant == 1 {
+		installed = reentrantProp{inner: installed, pre: w.prop0, depth: new(atomic.Int32)}
+	}
 	otel.SetTextMapPropagator(installed)
 	return propSame(w.prop0, installed)
 }
@@ -732,11 +757,12 @@ type result struct {
 // many measurements the data point accounts for.
 func arrivals(rm *metricdata.ResourceMetrics) (byN map[string]map[int]int, byCB map[string]map[int]bool, bad []string) {
 	byN, byCB = map[string]map[int]int{}, map[string]map[int]bool{}
+	isFloatData := false
 	// a data point with attribute n=<id> accounts for k measurements: for sums k = sum / value (the point must
 	// exist and be exactly 0 for a zero-valued measurement), for gauges the point must show the value, for
 	// histograms k = count with sum = count * value
 	put := func(name string, set attribute.Set, class int, sum float64, cnt int) {
-		if a, ok := set.Value("n"); ok {
+		if a, ok := set.Value("n"); ok && !(isFloatData && isSpecial(class, int(a.AsInt64()))) {
 			n := int(a.AsInt64())
 			if byN[name] == nil {
 				byN[name] = map[int]int{}
@@ -786,6 +812,12 @@ func arrivals(rm *metricdata.ResourceMetrics) (byN map[string]map[int]int, byCB 
 	for _, sm := range rm.ScopeMetrics {
 		for _, m := range sm.Metrics {
 			key := ikey(m.Name, m.Description, m.Unit)
+			switch m.Data.(type) {
+			case metricdata.Sum[float64], metricdata.Gauge[float64], metricdata.Histogram[float64]:
+				isFloatData = true
+			default:
+				isFloatData = false
+			}
 			switch d := m.Data.(type) {
 			case metricdata.Sum[int64]:
 				for _, p := range d.DataPoints {
@@ -860,7 +892,21 @@ func (w *world) finish(res *result) {
 		switch e.tag {
 		case evRecCall:
 			if x := w.insts[e.a]; x != nil {
-				for i := 0; i < byN[x.key()][e.b]; i++ {
+				k := byN[x.key()][e.b]
+				if bits, ok := specialBits(x.kind, e.b); ok {
+					// NaN / Inf: the forwarded call itself, compared by bit pattern
+					k = 0
+					w.fwd.mu.Lock()
+					for _, b := range w.fwd.m[e.b] {
+						if b == bits {
+							k++
+						} else {
+							res.Bad = append(res.Bad, fmt.Sprintf("measurement %d was forwarded with bits %#x instead of %#x", e.b, b, bits))
+						}
+					}
+					w.fwd.mu.Unlock()
+				}
+				for i := 0; i < k; i++ {
 					res.Events = append(res.Events, [3]int{evSdkRec, e.b, 0})
 				}
 			}
